@@ -131,6 +131,7 @@ def run(run, replay=None):
     pool = [c for c in cases if c['res']['hunks']]
     for k, c in enumerate(rng.sample(pool, min(10, len(pool)))):
         z = copy.deepcopy(c)
+        z['canary_of'] = z['id']
         z['id'] = 'canary-%d' % k
         h = z['res']['hunks'][0]
         [lambda: h.__setitem__('pre', h['pre'] + 1), lambda: z['res'].__setitem__('tins', z['res']['tins'] + 1),
